@@ -9,6 +9,25 @@ import traceback
 from .common import Repo, Report, AnalysisError, DEFAULT_REPO
 
 
+def thorough_matrix(prop, repo_root, rep):
+    """thorough tier = the quick verdict on the tree + the self-validation matrix of this property: seeded edits that must
+    FIRE and behaviour-preserving twins that must stay SILENT, each on a scratch copy of the CURRENT tree.  The matrix only
+    qualifies the checker (recorded in the evidence, printed as WARN); the exit code is the verdict on the tree itself."""
+    from .selftest import run_for_property
+    res = run_for_property(prop, repo_root)
+    fires = [r for r in res if r['kind'] == 'fires']
+    silent = [r for r in res if r['kind'] == 'silent']
+    bad = [r for r in res if r['status'] in ('MISS', 'FALSE-ALARM', 'STALE')]
+    for r in bad:
+        print('WARN self-validation: variant %s (%s) -> %s' % (r['id'], r['kind'], r['status']))
+    rep.extra['self_validation'] = dict(
+        seeded_edits=len(fires), fired=sum(1 for r in fires if r['status'] == 'OK'), fired_by_another_property=sum(1 for r in fires if r['status'] == 'not-primary'),
+        twins=len(silent), silent=sum(1 for r in silent if r['status'] == 'OK'), not_ok=[(r['id'], r['status']) for r in bad],
+        variants=[dict(id=r['id'], kind=r['kind'], status=r['status']) for r in res])
+    print('self-validation: %d seeded edits (%d fired here, %d belong to another property), %d twins (%d silent), %d not ok'
+          % (len(fires), sum(1 for r in fires if r['status'] == 'OK'), sum(1 for r in fires if r['status'] == 'not-primary'), len(silent), sum(1 for r in silent if r['status'] == 'OK'), len(bad)))
+
+
 def main(argv=None):
     ap = argparse.ArgumentParser()
     ap.add_argument('prop')
@@ -37,8 +56,10 @@ def main(argv=None):
         repo = Repo(a.repo)
         rep = Report(prop, a.tier, a.repo, level=getattr(mod, 'LEVEL', 'other'))
         mod.check(repo, rep)
-        if a.tier == 'thorough' and hasattr(mod, 'thorough'):
-            mod.thorough(repo, rep)
+        if a.tier == 'thorough':
+            if hasattr(mod, 'thorough'):
+                mod.thorough(repo, rep)
+            thorough_matrix(prop, a.repo, rep)
         return rep.finish()
     except AnalysisError as exc:
         print('ANALYSIS-ERROR: %s' % exc)
